@@ -195,6 +195,23 @@ func checkC19(c *Ctx) {
 		[]ValAssume{{Name: "s.length", Match: fieldRead("length"), Val: latInt(4)}}, false)
 	// field elements are kept in Montgomery form: an integer enters the field only through the converting
 	// setter, so the generic inversion of an integer is preceded by the conversion
+	checkPrio3FieldTables(c, p, "C19.table")
+	// the validity circuits hand the range check the number of gadget calls the proof system gave them (the
+	// proof has one wire value per call: a count derived differently, e.g. by a truncating division of the
+	// measurement length, leaves the tail of the measurement unchecked)
+	for _, t := range []struct{ pkg, typ string }{{"vdaf/prio3/mhcv", "flpMultiHotCountVec"}, {"vdaf/prio3/sumvec", "flpSumVec"}, {"vdaf/prio3/histogram", "flpHistogram"}} {
+		f := p.Func(t.pkg, t.typ, "Eval")
+		if f == nil {
+			c.undecided("C19.prep", t.pkg+": Eval passes numCalls on to the range check", "anchor does not resolve", "")
+			continue
+		}
+		i := paramIdx(f, "numCalls")
+		if i < 0 {
+			c.undecided("C19.prep", fname(f)+": Eval passes numCalls on to the range check", "parameter numCalls does not exist", p.fnPos(f))
+			continue
+		}
+		c.callArgRule(p, "C19.prep", "the range check runs over the number of gadget calls the caller fixed", f, "vdaf/prio3/internal/flp.RangeCheck", "", map[int]string{1: fmt.Sprintf(`param#%d`, i)})
+	}
 	for _, fp := range []string{"fp64", "fp128"} {
 		pk := "vdaf/prio3/arith/" + fp
 		c.orderRule(p, "C19.encode", "the integer is converted into the field (Montgomery form) before it is inverted", p.Func(pk, "Fp", "InvUint64"),
